@@ -245,7 +245,7 @@ static RefOut ref1(mp1_t f, u16 x)
     mpfr_subnormalize(mr_, t, g_rnd);
     o.a = mp2h(mr_);
     range_wide();
-    f(mw_, mx_, MPFR_RNDN);
+    f(mw_, mx_, g_rnd);   // directed styles: rounding twice in the same direction equals rounding once (tanh(89) = 1 - tiny must not become 1)
     o.special = mpfr_nan_p(mw_) || mpfr_inf_p(mw_) || mpfr_zero_p(mw_);
     u16 b = wide2h(mw_);
     cnt(C_XCHK_B);
@@ -265,7 +265,7 @@ static RefOut ref2(mp2_t f, u16 x, u16 y)
     mpfr_subnormalize(mr_, t, g_rnd);
     o.a = mp2h(mr_);
     range_wide();
-    f(mw_, mx_, my_, MPFR_RNDN);
+    f(mw_, mx_, my_, g_rnd);
     o.special = mpfr_nan_p(mw_) || mpfr_inf_p(mw_) || mpfr_zero_p(mw_);
     u16 b = wide2h(mw_);
     cnt(C_XCHK_B);
@@ -666,6 +666,8 @@ static bool fast_ref(int k, u16 x, u16 y, u16& out)
     case B_POW:
     {
         double L = std::pow(dx, dy);
+        // directed styles: a double that overflowed / underflowed no longer says on which side of the largest finite half / of zero it lies
+        if (g_directed && (std::isinf(L) || L == 0)) return false;
         if (!decisive<double>(L)) return false;
         out = f2h<double>(L);
         return true;
